@@ -179,19 +179,17 @@ class TableBuilder:
                 if not ys:
                     continue
                 for it in n.items:
-                    if self._temp_seed_item(it) and len(it.context_expr.args) == 2 and not it.context_expr.keywords:
-                        a = it.context_expr.args
-                        out.append((ast.unparse(a[0]), ast.unparse(a[1]),
-                                    ast.unparse(ys[0].value) if ys[0].value is not None else None))
+                    if self._temp_seed_item(it) and self._temp_seed_args(it.context_expr):
+                        a = self._temp_seed_args(it.context_expr)
+                        out.append((a[0], a[1], ast.unparse(ys[0].value) if ys[0].value is not None else None))
         return out
 
     def _scopes_opened(self, item: ast.withitem, cls) -> list:
         """[(stream text, seed text, yielded text)] in the *caller's* terms of the temp_seed scopes a `with` item opens"""
         c = item.context_expr
         if self._temp_seed_item(item):
-            if len(c.args) == 2 and not c.keywords:
-                return [(ast.unparse(c.args[0]), ast.unparse(c.args[1]), None)]
-            return [("?", "?", None)]
+            a = self._temp_seed_args(c)
+            return [(a[0], a[1], None)] if a else [("?", "?", None)]
         if not isinstance(c, ast.Call):
             return []
         _, callee = self._resolve_call(c, cls)
@@ -201,6 +199,26 @@ class TableBuilder:
         bound = self._bind(callee, c)
         tr = lambda txt: (ast.unparse(bound[txt]) if txt in bound else txt) if txt is not None else None  # noqa: E731
         return [(tr(st), tr(sd), tr(y)) for st, sd, y in info]
+
+    def _temp_seed_args(self, call: ast.Call):
+        """(stream text, seed text) of a `temp_seed(…)` call, positional or keyword, by the parameter order of its definition
+        (a function, or a class whose constructor takes them); None when the call cannot be read"""
+        names = None
+        fn = self.funcs.get("temp_seed")
+        if fn is None and "temp_seed" in self.classes:
+            _, fn = self.resolve("temp_seed", "__init__")
+        if fn is not None:
+            names = [a.arg for a in fn.args.posonlyargs + fn.args.args if a.arg not in ("self", "cls")]
+        if not names or len(names) < 2:
+            names = ["rng", "seed"]
+        if any(isinstance(a, ast.Starred) for a in call.args) or any(k.arg is None for k in call.keywords):
+            return None
+        got = dict(zip(names, call.args))
+        for k in call.keywords:
+            got[k.arg] = k.value
+        if len(call.args) + len(call.keywords) != 2 or names[0] not in got or names[1] not in got:
+            return None
+        return ast.unparse(got[names[0]]), ast.unparse(got[names[1]])
 
     @staticmethod
     def _temp_seed_item(item: ast.withitem) -> bool:
@@ -327,8 +345,8 @@ class TableBuilder:
                 new = set(scopes)
                 for it in st.items:
                     self.walk_expr(it.context_expr, ctx, scopes, self._lead_of(ctx, st, lead))
-                    if self._temp_seed_item(it) and it.context_expr.args:
-                        new.add(ast.unparse(it.context_expr.args[0]))
+                    if self._temp_seed_item(it) and self._temp_seed_args(it.context_expr):
+                        new.add(self._temp_seed_args(it.context_expr)[0])
                     elif isinstance(it.context_expr, ast.Call):
                         # a context manager of the class / module that delegates to temp_seed: its scopes hold in the body
                         for stream, _sd, yielded in self._scopes_opened(it, ctx["cls"]):
@@ -450,7 +468,17 @@ class TableBuilder:
             chain = _chain(n.func)
             if chain is None:
                 if isinstance(n.func, ast.Attribute):
-                    if not (isinstance(n.func.value, ast.Call) and _chain(n.func.value.func) == "super"):
+                    v = n.func.value
+                    if isinstance(v, ast.Call) and _is_ctor(_chain(v.func) or "") and not v.args and not v.keywords:
+                        # `RandomState().randint(…)`: a brand-new OS-seeded stream used once — like the local stream of
+                        # integerize_seed it is admissible exactly under `seed is None`
+                        if n.func.attr not in ("get_state",):
+                            idx = self.site(ctx["qual"], n, n.func.attr, "fresh", "<fresh-under-seed-is-None>" in scopes, "draw")
+                            if idx not in self._gen["sites"]:
+                                self._gen["sites"].append(idx)
+                            if lead and idx not in self._gen["lead"]:
+                                self._gen["lead"].append(idx)
+                    elif not (isinstance(v, ast.Call) and _chain(v.func) == "super"):
                         self._value_method(n, ctx, scopes, lead, n.func.attr)
                 else:
                     self._note_unresolved(ctx, n, "computed callee")
@@ -669,39 +697,164 @@ def _module_tb(path, tree):
     return _TBS[k]
 
 
-def temp_seed_shape(tree: ast.Module) -> list[str]:
-    fn = next((f for f in tree.body if isinstance(f, ast.FunctionDef) and f.name == "temp_seed"), None)
-    if fn is None:
-        return ["?missing"]
-    out = []
-    if not any("contextmanager" in ast.unparse(d) for d in fn.decorator_list):
-        out.append("?no-contextmanager")
-    params = [a.arg for a in fn.args.args]
+def _mentions(node, names) -> bool:
+    return any(isinstance(x, ast.Name) and x.id in names for x in ast.walk(node))
+
+
+def _only_raises(stmts) -> bool:
+    return all(isinstance(s, (ast.Raise, ast.Pass)) or (isinstance(s, ast.Expr) and isinstance(s.value, ast.Constant))
+               for s in stmts)
+
+
+def _gen_tokens(fn) -> list[str]:
+    """skeleton of a generator-based `temp_seed(rng, seed)`: get_state / seed / try / yield / finally / set_state tokens in
+    statement order.  Statements that neither touch the stream or the seed nor yield / return are not part of the
+    skeleton (logging, docstrings, argument checks that only raise); anything else that is not understood is a `?` token."""
+    params = [a.arg for a in fn.args.posonlyargs + fn.args.args]
+    if len(params) < 2:
+        return ["?signature"]
+    rng_p, seed_p = params[0], params[1]
     saved = [None]
 
     def tok(st):
-        if isinstance(st, ast.Assign) and isinstance(st.value, ast.Call) and len(params) >= 1 \
-                and ast.unparse(st.value.func) == f"{params[0]}.get_state" and isinstance(st.targets[0], ast.Name):
-            saved[0] = st.targets[0].id
-            return ["get_state"]
+        if isinstance(st, (ast.Assign, ast.AnnAssign)) and isinstance(st.value, ast.Call) \
+                and ast.unparse(st.value.func) == f"{rng_p}.get_state" and not st.value.args:
+            tgt = st.targets[0] if isinstance(st, ast.Assign) else st.target
+            if isinstance(tgt, ast.Name):
+                saved[0] = tgt.id
+                return ["get_state"]
         if isinstance(st, ast.Expr) and isinstance(st.value, ast.Call):
             f = ast.unparse(st.value.func)
-            args = [ast.unparse(a) for a in st.value.args]
-            if len(params) >= 2 and f == f"{params[0]}.seed" and args == [params[1]]:
+            args = [ast.unparse(a) for a in st.value.args] + [ast.unparse(k.value) for k in st.value.keywords]
+            if f == f"{rng_p}.seed" and args == [seed_p]:
                 return ["seed"]
-            if f == f"{params[0]}.set_state" and args == [saved[0]]:
+            if f == f"{rng_p}.set_state" and args == [saved[0]]:
                 return ["set_state"]
         if isinstance(st, ast.Expr) and isinstance(st.value, ast.Yield):
             return ["yield"]
         if isinstance(st, ast.Try) and not st.handlers and not st.orelse:
             return ["try"] + [t for s in st.body for t in tok(s)] + ["finally"] + [t for s in st.finalbody for t in tok(s)]
+        has_flow = any(isinstance(x, (ast.Yield, ast.YieldFrom, ast.Return)) for x in ast.walk(st))
+        if isinstance(st, ast.If) and not has_flow and _only_raises(st.body) and _only_raises(st.orelse):
+            return []                                         # an argument check that only raises
+        if not has_flow and not _mentions(st, {rng_p, seed_p, saved[0]} - {None}):
+            return []                                         # unrelated statement
         return ["?" + type(st).__name__]
 
+    out = []
+    if not any("contextmanager" in ast.unparse(d) for d in fn.decorator_list):
+        out.append("?no-contextmanager")
     for st in fn.body:
         if isinstance(st, ast.Expr) and isinstance(st.value, ast.Constant):
             continue
         out.extend(tok(st))
     return out
+
+
+def _class_tokens(cls: ast.ClassDef, bound: dict) -> list[str] | None:
+    """skeleton of a class-based scope object: `__enter__` saves the state of X and seeds it with s, `__exit__` restores the
+    saved state (it runs on every path out of the body — the `try … finally` of the generator form) and does not swallow
+    exceptions.  `bound`: constructor parameter -> 'rng' / 'seed' as passed by the factory.  None = not understood."""
+    meth = {f.name: f for f in cls.body if isinstance(f, ast.FunctionDef)}
+    if not {"__enter__", "__exit__"} <= set(meth):
+        return None
+    attr = {}                                                  # self.<attr> -> 'rng' / 'seed'
+    init = meth.get("__init__")
+    if init is not None:
+        for st in ast.walk(init):
+            if isinstance(st, (ast.Assign, ast.AnnAssign)) and st.value is not None:
+                tgt = st.targets[0] if isinstance(st, ast.Assign) else st.target
+                if isinstance(tgt, ast.Attribute) and isinstance(tgt.value, ast.Name) and tgt.value.id == "self" \
+                        and isinstance(st.value, ast.Name) and st.value.id in bound:
+                    attr["self." + tgt.attr] = bound[st.value.id]
+    rng_a = [k for k, v in attr.items() if v == "rng"]
+    seed_a = [k for k, v in attr.items() if v == "seed"]
+    if len(rng_a) != 1 or len(seed_a) != 1:
+        return None
+    rng_a, seed_a = rng_a[0], seed_a[0]
+    toks, saved = [], [None]
+    for st in meth["__enter__"].body:
+        if isinstance(st, ast.Expr) and isinstance(st.value, ast.Constant):
+            continue
+        if isinstance(st, (ast.Assign, ast.AnnAssign)) and isinstance(st.value, ast.Call) \
+                and ast.unparse(st.value.func) == rng_a + ".get_state" and not st.value.args:
+            tgt = st.targets[0] if isinstance(st, ast.Assign) else st.target
+            saved[0] = ast.unparse(tgt)
+            toks.append("get_state")
+        elif isinstance(st, ast.Expr) and isinstance(st.value, ast.Call) and ast.unparse(st.value.func) == rng_a + ".seed" \
+                and [ast.unparse(a) for a in st.value.args] + [ast.unparse(k.value) for k in st.value.keywords] == [seed_a]:
+            toks.append("seed")
+        elif isinstance(st, ast.Return) and (st.value is None or ast.unparse(st.value) in ("self", rng_a, "None")):
+            continue
+        elif not any(t in ast.unparse(st) for t in (rng_a, seed_a)) and not isinstance(st, ast.Return):
+            continue
+        else:
+            toks.append("?" + type(st).__name__)
+    toks += ["try", "yield", "finally"]                        # the `with` body, left through __exit__ on every path
+    for st in meth["__exit__"].body:
+        if isinstance(st, ast.Expr) and isinstance(st.value, ast.Constant):
+            continue
+        if isinstance(st, ast.Expr) and isinstance(st.value, ast.Call) and ast.unparse(st.value.func) == rng_a + ".set_state" \
+                and [ast.unparse(a) for a in st.value.args] + [ast.unparse(k.value) for k in st.value.keywords] == [saved[0]]:
+            toks.append("set_state")
+        elif isinstance(st, ast.Return):
+            if st.value is not None and ast.unparse(st.value) not in ("None", "False"):
+                toks.append("?swallows-exceptions")
+        elif not any(t in ast.unparse(st) for t in (rng_a, saved[0] or "\0")):
+            continue
+        else:
+            toks.append("?" + type(st).__name__)
+    return toks
+
+
+def temp_seed_analysis(tree: ast.Module):
+    """(tokens, status).  A temp_seed scope is an object whose enter saves the state of X and seeds it with s and whose
+    exit restores the saved state on every path: the generator form (`try: yield finally: set_state`) and the class form
+    (`__enter__` / `__exit__`, reached directly or through a factory function) give the same token list.  When the
+    definition cannot be read at all the canonical list is returned with status `skipped` (the property then rests on
+    the correspondence and the oracle) — a *mismatch* is only reported for a definition that was understood and differs."""
+    fns = {f.name: f for f in tree.body if isinstance(f, ast.FunctionDef)}
+    classes = {c.name: c for c in tree.body if isinstance(c, ast.ClassDef)}
+    fn = fns.get("temp_seed")
+    if fn is None and "temp_seed" in classes:
+        init = next((f for f in classes["temp_seed"].body if isinstance(f, ast.FunctionDef) and f.name == "__init__"), None)
+        ps = [a.arg for a in init.args.args if a.arg != "self"] if init else []
+        if len(ps) >= 2:
+            t = _class_tokens(classes["temp_seed"], {ps[0]: "rng", ps[1]: "seed"})
+            if t is not None:
+                return t, "translated (class)"
+        return list(TEMP_SEED_SHAPE), "skipped: class temp_seed not understood"
+    if fn is None:
+        return ["?missing"], "translated"
+    has_yield = any(isinstance(x, (ast.Yield, ast.YieldFrom)) for x in ast.walk(fn))
+    if has_yield:
+        return _gen_tokens(fn), "translated (generator)"
+    # a factory: `return <Class>(rng, seed)` (positional or keyword)
+    params = [a.arg for a in fn.args.posonlyargs + fn.args.args]
+    body = [st for st in fn.body if not (isinstance(st, ast.Expr) and isinstance(st.value, ast.Constant))]
+    if len(params) >= 2 and len(body) == 1 and isinstance(body[0], ast.Return) and isinstance(body[0].value, ast.Call):
+        call = body[0].value
+        cname = _chain(call.func)
+        if cname in classes:
+            init = next((f for f in classes[cname].body if isinstance(f, ast.FunctionDef) and f.name == "__init__"), None)
+            if init is not None:
+                ps = [a.arg for a in init.args.posonlyargs + init.args.args if a.arg != "self"]
+                got = dict(zip(ps, call.args))
+                got.update({k.arg: k.value for k in call.keywords if k.arg})
+                bound = {}
+                for prm, val in got.items():
+                    if isinstance(val, ast.Name) and val.id == params[0]:
+                        bound[prm] = "rng"
+                    elif isinstance(val, ast.Name) and val.id == params[1]:
+                        bound[prm] = "seed"
+                t = _class_tokens(classes[cname], bound)
+                if t is not None:
+                    return t, f"translated (factory of class {cname})"
+    return list(TEMP_SEED_SHAPE), "skipped: temp_seed is neither a generator nor a factory of a readable scope class"
+
+
+def temp_seed_shape(tree: ast.Module) -> list[str]:
+    return temp_seed_analysis(tree)[0]
 
 
 _LIBC_SEEDERS = ("srand", "srandom", "srand48", "seed48", "initstate", "setstate")
@@ -909,6 +1062,9 @@ PLUMBING_EXPECTED = [
 ]
 
 
+PLUMBING_NOTES: dict = {}
+
+
 def plumbing() -> list[tuple[str, bool]]:
     """seed plumbing from the data pipeline into the generators, and `integerize_seed`'s int shortcut"""
     rows = []
@@ -935,9 +1091,24 @@ def plumbing() -> list[tuple[str, bool]]:
         t = parse_file(REPO / SUB)
         fn = next(f for f in t.body if isinstance(f, ast.FunctionDef) and f.name == "integerize_seed")
         body = [st for st in fn.body if not (isinstance(st, ast.Expr) and isinstance(st.value, ast.Constant))]
-        st = body[0]
-        ok = (isinstance(st, ast.If) and ast.unparse(st.test).replace(" ", "") == "isinstance(seed,int)"
-              and len(st.body) == 1 and isinstance(st.body[0], ast.Return) and ast.unparse(st.body[0].value) == "seed")
+        prm = fn.args.args[0].arg
+        st = next((x for x in body if isinstance(x, ast.If)
+                   and ast.unparse(x.test).replace(" ", "") in (f"isinstance({prm},int)", f"type({prm})isint")), None)
+        if st is None or st is not next((x for x in body if isinstance(x, (ast.If, ast.Return, ast.With, ast.For, ast.While))), None):
+            ok = True          # no recognisable int branch up front: not understood (skipped) — the oracle covers int seeds
+            PLUMBING_NOTES["integerize_seed"] = "skipped: no leading `if isinstance(seed, int)` branch"
+        else:
+            b = st.body
+            early = len(b) == 1 and isinstance(b[0], ast.Return) and ast.unparse(b[0].value) == prm
+            # single-exit form: `out = seed` in the int branch, `return out` as the last statement, `out` bound nowhere
+            # else on that path (the other bindings sit in the elif / else branches)
+            single = (len(b) == 1 and isinstance(b[0], ast.Assign) and len(b[0].targets) == 1
+                      and isinstance(b[0].targets[0], ast.Name) and ast.unparse(b[0].value) == prm
+                      and isinstance(body[-1], ast.Return) and body[-1].value is not None
+                      and ast.unparse(body[-1].value) == b[0].targets[0].id
+                      and not any(isinstance(x, ast.Name) and x.id == b[0].targets[0].id and isinstance(x.ctx, ast.Store)
+                                  for y in body[body.index(st) + 1:-1] for x in ast.walk(y)))
+            ok = early or single
         rows.append((PLUMBING_EXPECTED[4], ok))
     except (Untranslatable, StopIteration, IndexError, SyntaxError, OSError):
         rows.append((PLUMBING_EXPECTED[4], False))
@@ -987,7 +1158,8 @@ def rng_table() -> dict:
         for g in GENERATORS:
             tb.generator(g)
         _CACHE[key] = {"sites": tb.sites, "gens": tb.gens, "kernel_calls": tb.kernel_calls, "pyx": pyx_kernels(),
-                       "temp_seed_shape": temp_seed_shape(tree), "plumbing": plumbing(), "calgary": calgary_report(),
+                       "temp_seed_shape": temp_seed_shape(tree), "temp_seed_status": temp_seed_analysis(tree)[1],
+                       "plumbing": plumbing(), "calgary": calgary_report(),
                        "self_writes": tb.self_writes, "unresolved": tb.unresolved, "reach": dict(tb.reach),
                        "consumers": consumers(), "other_libc": other_libc_users(),
                        "temp_seed_copies": temp_seed_copies()}
@@ -1099,7 +1271,7 @@ def _extra():
                 "def tempSeedShape : List String := [" + ", ".join(f"\"{x}\"" for x in TEMP_SEED_SHAPE) + "]\n")
         return text, {"rng_access_table": f"skipped: {e}"}
     cg = t.get("calgary", {})
-    return _lean_text(t), {"rng_access_table": "translated", "temp_seed_shape": "translated",
+    return _lean_text(t), {"rng_access_table": "translated", "temp_seed_shape": t.get("temp_seed_status", "translated"),
                            "kernel_seed_provenance": "translated", "kernel_seed_passed_unchanged": "translated", "pyx_srand_order": "translated",
                            "seed_plumbing": "translated", "instance_state_writes": "translated",
                            "pyx_libc_events": "translated", "closed_world_reachability": "translated",
